@@ -107,7 +107,7 @@ func runRace(args []string) []string {
 	go func() { done <- cmd.Wait() }()
 	select {
 	case <-done:
-	case <-time.After(60 * time.Second):
+	case <-time.After(150 * time.Second):
 		cmd.Process.Kill()
 		return []string{"hang"}
 	}
@@ -184,11 +184,13 @@ func stress(spec string) string {
 			g := hx.NewGen(seed*1000 + int64(gi))
 			cl, cc := connect(y)
 			defer cc.Close()
-			cc.SetDeadline(time.Now().Add(40 * time.Second))
+			cc.SetDeadline(time.Now().Add(90 * time.Second))
+			started := time.Now()
 			myPriv, myS := mkKey()
 			have := false
 			var myHard *ssh.Certificate
-			for i := 0; i < nops; i++ {
+			// on a loaded machine the scenario is cut short rather than declared hung: no new operation after 15 s
+			for i := 0; i < nops && time.Since(started) < 15*time.Second; i++ {
 				switch g.Intn(10) {
 				case 9: // sign with the hardware certificate this goroutine added last, over its own data
 					if myHard != nil {
@@ -315,7 +317,8 @@ func stress(spec string) string {
 						report("mixup:signer-panic:" + hx.HexS(fmt.Sprint(r)))
 					}
 				}()
-				for i := 0; i < 3*nops; i++ {
+				started := time.Now()
+				for i := 0; i < 3*nops && time.Since(started) < 6*time.Second; i++ {
 					if gi%2 == 0 {
 						// one signer per step, in rotation (every signer is used several times by every goroutine)
 						for si, sg := range ss {
@@ -347,7 +350,7 @@ func stress(spec string) string {
 		go func() { wg2.Wait(); close(done2) }()
 		select {
 		case <-done2:
-		case <-time.After(30 * time.Second):
+		case <-time.After(60 * time.Second):
 			report("hang:signers-with-forward")
 		}
 	}
@@ -473,7 +476,7 @@ func slowUpstream(spec string) string {
 	go func() { wg.Wait(); close(done) }()
 	select {
 	case <-done:
-	case <-time.After(40 * time.Second):
+	case <-time.After(60 * time.Second):
 		return "hang"
 	}
 	if len(problems) > 0 {
@@ -929,7 +932,7 @@ func completes(spec string) string {
 		select {
 		case <-done:
 			return true
-		case <-time.After(3 * time.Second):
+		case <-time.After(12 * time.Second):
 			return false
 		}
 	}
